@@ -39,7 +39,7 @@ type Case struct {
 
 func genCase(t *rapid.T) Case {
 	rich := rapid.IntRange(0, 3).Draw(t, "rich") > 0
-	doc, info := gen.Spec(t, gen.SpecOpts{Rich: rich})
+	doc, info := gen.Spec(t, gen.SpecOpts{Rich: rich, CaseTwinParams: true})
 	c := Case{Rich: rich && info.UsedSharedParam && info.UsedSharedResp && len(info.AllOfChildren) > 0}
 	n := rapid.SampledFrom([]int{0, 1, 1, 1, 2}).Draw(t, "nedits")
 	shaped, wroteResponseSchema := false, false
